@@ -302,6 +302,10 @@ type World struct {
 	Fetch func(url string) (int, string)
 	// FetchErr, if set and returning an error, makes the outgoing fetch fail at the transport (no HTTP response at all).
 	FetchErr func(url string) error
+	// DeviceFreshSession: the consent step attaches a freshly built user session to the approved device request and does NOT
+	// carry the device / user code expiries over from the anonymous session the codes were issued with (legal: the strategy
+	// then falls back to the request time plus the configured lifespan).
+	DeviceFreshSession bool
 	// Abandon, if set, is asked after NewAccessRequest (and the TokenMuts) whether the request is given up before NewAccessResponse.
 	Abandon func(fosite.AccessRequester) bool
 	// JWKSSettle waits until the shipped JWKS fetcher's cache has absorbed pending writes (RealJWKS worlds only).
